@@ -377,11 +377,17 @@ func (r *runner) send(st Step) {
 			abs = append(abs, a)
 		}
 		if st.Arr {
-			txt = "[" + strings.Join(parts, ",") + "]"
+			// insignificant whitespace inside the array as well
+			in := []string{"", " ", "\r\n", "\t"}[(n+len(parts))%4]
+			txt = "[" + in + strings.Join(parts, in+","+in) + in + "]"
 		} else {
 			txt = parts[0]
 		}
 		meta["mem"] = abs
+	}
+	if st.Kind != "garbage" {
+		// insignificant JSON whitespace around the record (space, tab, LF, CR) changes nothing
+		txt = []string{"", " ", "\n", "\r\n", "\t", " \n ", "\r", "\n\n"}[(n+int(r.sc.Seed))%8] + txt + []string{"", " ", "\r\n"}[n%3]
 	}
 	if st.Raw != "" {
 		txt = st.Raw
